@@ -207,12 +207,9 @@ pub fn eligible(spec: &Spec, life: Life, at: usize, policy: &Policy) -> bool {
     life == Life::Active && spec.window.contains(at) && policy.modes.contains(&spec.mode)
 }
 
-fn conf_tenths(spec: &Spec) -> u8 {
-    if spec.conf == 0 {
-        UNSTATED_TENTHS
-    } else {
-        spec.conf
-    }
+/// Strength an assertion counts with, in tenths (unstated = the documented default).
+pub fn conf_tenths(spec: &Spec) -> u8 {
+    spec.stated_tenths().unwrap_or(UNSTATED_TENTHS)
 }
 
 /// Connected components over actors ∪ evidence ids.
